@@ -20,7 +20,7 @@ OUTSIDE = ["WLS / LP / robust estimators' iterations, observability analysis, ba
 BOUNDS = {"quick": "h(x) for p/q bus, p/q from/to, v, va, i from/to on 3 buses / 1 branch (thorough: 2 branches) + concrete reachability twin through estimate()", "thorough": "same"}
 
 
-def make_hx():
+def make_hx(parts=("bus", "flow", "v", "i"), lean=False):
     def fn(ctx):
         mb = ctx.load("pandapower.estimation.algorithm.matrix_base")
         mY = ctx.load("pandapower.pypower.makeYbus")
@@ -30,7 +30,7 @@ def make_hx():
         from pandapower.pypower.idx_gen import GEN_BUS, GEN_STATUS, QMIN, QMAX
         from pandapower.pypower.idx_brch import PF, QF, PT, QT, F_BUS, T_BUS
         from . import c01
-        bus, branch = c06._branch_bus(ctx, LAYOUT[0])
+        bus, branch = c06._branch_bus(ctx, LAYOUT[0], lean=lean)
         base = 10.0
         Ybus, Yf, Yt = mY.makeYbus(base, bus, branch)
         nb, nl = 3, len(LAYOUT[0])
@@ -63,7 +63,7 @@ def make_hx():
         b2, g2, br2 = ps.pfsoln(base, bus.copy(), gen, branch.copy(), empty, empty, empty, empty, Ybus, Yf, Yt, V, np.array([0]), np.array([0]))
         A = Ybus.toarray() if hasattr(Ybus, "toarray") else np.asarray(Ybus)
         k = 0
-        for b in range(nb):        # bus injections: V conj(Ybus V)
+        for b in (range(nb) if "bus" in parts else ()):        # bus injections: V conj(Ybus V)
             I = 0.0
             for j in range(nb):
                 I = I + A[b, j] * V[j]
@@ -71,19 +71,19 @@ def make_hx():
             ctx.eq(f"h_pbus[{b}]_is_the_bus_injection", hx[b], S.real)
             ctx.eq(f"h_qbus[{b}]_is_the_bus_injection", hx[nb + b], S.imag)
         o = 2 * nb
-        for r in range(nl):
+        for r in (range(nl) if "flow" in parts else ()):
             ctx.eq(f"h_pfrom[{r}]_is_the_reported_branch_flow", hx[o + r], br2[r, PF] / base)
             ctx.eq(f"h_qfrom[{r}]_is_the_reported_branch_flow", hx[o + nl + r], br2[r, QF] / base)
             ctx.eq(f"h_pto[{r}]_is_the_reported_branch_flow", hx[o + 2 * nl + r], br2[r, PT] / base)
             ctx.eq(f"h_qto[{r}]_is_the_reported_branch_flow", hx[o + 3 * nl + r], br2[r, QT] / base)
         o = 2 * nb + 4 * nl
-        for b in range(nb):
+        for b in (range(nb) if "v" in parts else ()):
             ctx.eq(f"h_vm[{b}]_is_the_reported_voltage_magnitude", hx[o + b], b2[b, VM])
             got = hx[o + nb + b]
             got_deg = got.deg if hasattr(got, "deg") else (np.rad2deg(got) if not ctx.symbolic else got)
             ctx.close(f"h_va[{b}]_is_the_reported_voltage_angle", got_deg, b2[b, VA], 1e-9)
         o = 2 * nb + 4 * nl + 2 * nb
-        for r in range(nl):
+        for r in (range(nl) if "i" in parts else ()):
             f, t = int(alg.fb[r]), int(alg.tb[r])
             i_f, i_t = hx[o + r], hx[o + nl + r]
             ctx.eq(f"h_ifrom[{r}]_squared_is_S_over_V_squared", i_f * i_f * vm[f] * vm[f] * base * base, br2[r, PF] * br2[r, PF] + br2[r, QF] * br2[r, QF])
@@ -99,7 +99,14 @@ LAYOUT = [[(0, 1)]]
 
 def instances(tier):
     LAYOUT[0] = [(0, 1)] if tier == "quick" else [(0, 1), (1, 2)]
-    return [Inst("hx_equals_power_flow_results", make_hx(), nvars=40, samples=2, timeout_ms=120000, max_paths=200, meta=dict(part="h(x)"))]
+    if tier == "quick":
+        return [Inst("hx_equals_power_flow_results", make_hx(), nvars=40, samples=2, timeout_ms=120000, max_paths=200, meta=dict(part="h(x)", branches=1))]
+    # 2 branches: the same execution, the claims split over four instances so that they are decided in parallel
+    # (the current-magnitude claims square a square root of a large rational function: with all shunt parameters symbolic the canonical
+    # forms for 2 branches do not finish within the budget - there the bus shunts and the asymmetric branch shunts are concrete zeros)
+    return [Inst(f"hx_equals_power_flow_results_{p}", make_hx((p,), lean=(p == "i")), nvars=40, samples=2, timeout_ms=120000, max_paths=200,
+                 meta=dict(part="h(x)", branches=2, claims=p, shunts="concrete zero" if p == "i" else "symbolic"))
+            for p in ("bus", "flow", "v", "i")]
 
 
 def extra_checks(tier, seed):
